@@ -814,8 +814,11 @@ class Judge:
                           got=_show(mm), grammar=self.grammar_notes([(mm, None)]))
 
     def check_target(self, rec, target):
-        if self.mode != 'rt' or target is None:
+        # destination of the datagram / score entry: the server the objects of
+        # this history belong to (checked for every packet, RT and NRT)
+        if target is None:
             return
+        self.count('destinations_checked')
         want = self.r.server.addr._target
         if tuple(target) != tuple(want):
             self.fail('C17/wire/sent-to-wrong-address', rec, target=list(target),
@@ -879,8 +882,17 @@ class Judge:
         ev = rec['events']
         allocs = [e for e in ev if e[1] == 'alloc']
         releases = [e for e in ev if e[1] == 'free' and e[3] is not None]
-        method = exp.method
+        method = exp.method if exp is not None else _method_of(rec['op'])
         self.count('ledger_checks')
+        idm = getattr(self.r, 'node_id_model', None)
+        if idm is not None:
+            for e in ev:
+                if e[0] == 'node' and e[1] == 'alloc':
+                    v = idm.judge(e[3])
+                    self.count('node_ids_judged')
+                    if not v:
+                        self.fail(f'C17/ids/node-id-allocation/{v.mech}', rec,
+                                  detail=v.detail, client=idm.user, first_id=idm.first)
         want_allocs = [w for w in want if w[1] == 'alloc']
         want_rel = [w for w in want if w[1] == 'release']
         if any(w[1] == 'release-all' for w in want):
